@@ -419,7 +419,7 @@ Theorem C07_reported_text_partial :
     o_anchors o = false -> seq_plain d = true ->
     search_doc lit re_search mt tm sp o d = Ok res ->
     forall h, In h res -> okl sp (h_loc h) = true -> h_path h = build_path sp (h_loc h).
-Proof. exact (fun lit re mt tm sp o d res Ha Hp E => search_doc_paths sp lit re mt tm o d res Ha Hp E). Qed.
+Proof. exact reported_text. Qed.
 Print Assumptions C07_reported_text_partial.
 
 (* ---- non-vacuity: keys with every escapable character, nested sequences,
